@@ -78,6 +78,24 @@ def v2_env_skeleton():
     ])
 
 
+def v2_env_partial():
+    """Environmental spellings in which the requirement metrics are absent or explicitly ND while
+    CDP / TD vary (and vice versa): the 'all requirements Not Defined' paths on every base vector."""
+    out = []
+    for cdp in (None, "ND", "N", "L", "H"):
+        for td in (None, "ND", "N", "M", "H"):
+            for req in ({}, {"CR": "ND", "IR": "ND", "AR": "ND"}, {"CR": "ND"}, {"AR": "H"}, {"IR": "L", "AR": "ND"}):
+                d = {}
+                if cdp:
+                    d["CDP"] = cdp
+                if td:
+                    d["TD"] = td
+                d.update(req)
+                if d:
+                    out.append(("/".join("%s:%s" % (m, d[m]) for m in T.V2_ENV if m in d), d))
+    return out
+
+
 def v2_blocks(tier):
     """Score space of C03: quick = <=1 free group around the skeleton (+ base x each group);
     thorough = the full 729 x 49 x 541 product. Both include the spelling blocks."""
@@ -93,6 +111,7 @@ def v2_blocks(tier):
         blocks.append(Block("v2.env_free", "2", bs, ts, ea))
         blocks.append(Block("v2.base_x_temporal", "2", ba, ta, ABSENT))
         blocks.append(Block("v2.base_x_env", "2", ba, ABSENT, ea))
+    blocks.append(Block("v2.base_x_env_partial", "2", ba, ts[:3], v2_env_partial()))
     blocks += v2_spelling_blocks()
     return blocks
 
